@@ -141,6 +141,13 @@ macro_rules! dim {
                 ck.eqv("zero", $v($Vec::<S>::zero()), [S::i(0); N]);
                 ck.eqv("u+zero", $v(vu + $Vec::zero()), u);
                 ck.eqv("zero+u", $v($Vec::zero() + vu), u);
+                // the rest of the Zero interface: is_zero, and set_zero (a provided method of the
+                // foreign trait) must leave the additive identity behind
+                ck.truth("zero().is_zero()", num_traits::Zero::is_zero(&$Vec::<S>::zero()));
+                let mut cleared = vu;
+                num_traits::Zero::set_zero(&mut cleared);
+                ck.eqv("set_zero leaves zero()", $v(cleared), [S::i(0); N]);
+                ck.eqv("w + (u after set_zero) = w", $v(vw + cleared), w);
                 ck.truth("len", $Vec::<S>::len() == N);
                 ck.note("u", &vu);
             }
